@@ -69,11 +69,12 @@ _servers = {}
 
 
 def get(hashseed, stage, verif):
-    s = _servers.get(hashseed)
+    key = (hashseed, stage)
+    s = _servers.get(key)
     if s is not None and (s.owner != os.getpid() or s.p.poll() is not None):
         s = None
     if s is None:
-        s = _servers[hashseed] = Server(hashseed, stage, verif)
+        s = _servers[key] = Server(hashseed, stage, verif)
     return s
 
 
